@@ -67,6 +67,7 @@ type Contract struct {
 	Inline   bool
 	Trusted  string // non-empty: contract assumed (reason)
 	Abstract string // non-empty: callers use contract, body not verified (reason)
+	Unguarded bool // writes in this function are exempt from guarded-by (object not shared yet)
 	NoSafety bool
 	MayPanic bool // callee may panic (callers must not rely on return)... unused
 	Replay   string
@@ -110,6 +111,15 @@ type Lemma struct {
 	Line    int
 }
 
+// Guard: every store to field Field of struct Type must satisfy Cond (self = pointer to the struct).
+type Guard struct {
+	TypeName string
+	Field    string
+	Cond     *Clause
+	PkgPath  string
+	Props    []string
+}
+
 type Uninterp struct {
 	Decl    *ast.FuncDecl
 	PkgPath string
@@ -122,13 +132,17 @@ type ContractSet struct {
 	Lemmas    []*Lemma
 	Uninterp  map[string]*Uninterp // key pkgpath + "." + name
 	Exempt    []*GhostDecl         // frame-exempt struct types (TypeName, PkgPath)
+	Overlays  [][3]string          // pkgpath, array type, struct type
+	GhostVars []*GhostDecl         // ghost globals (Field = name)
+	Guards    []*Guard
+	FieldAssumes []*Guard // assumed range of a field whenever it is read (documented modelling bound)
 	Errors    []string
 }
 
 var clauseKeywords = map[string]bool{
 	"property": true, "requires": true, "ensures": true, "modifies": true, "loop": true,
 	"inline": true, "trusted": true, "abstract": true, "nosafety": true, "replay": true,
-	"bounded": true, "note": true, "fnparam": true, "dispatch": true, "unroll": true, "assumes": true, "split": true, "fresh": true, "witness": true,
+	"bounded": true, "note": true, "fnparam": true, "dispatch": true, "unroll": true, "assumes": true, "split": true, "fresh": true, "witness": true, "unguarded": true,
 }
 
 var propPrefix = regexp.MustCompile(`^\[((?:C\d+\s*)+)\]\s*`)
@@ -168,7 +182,7 @@ func parseContractFile(path, pkgPath string, cs *ContractSet) {
 		}
 		trim := strings.TrimSpace(body)
 		isTop := strings.HasPrefix(trim, "func ") || strings.HasPrefix(trim, "pure ") || strings.HasPrefix(trim, "ghost ") ||
-			strings.HasPrefix(trim, "frame-exempt ") || strings.HasPrefix(trim, "extern ") || strings.HasPrefix(trim, "interface ") || strings.HasPrefix(trim, "lemma ") || strings.HasPrefix(trim, "uninterp ")
+			strings.HasPrefix(trim, "frame-exempt ") || strings.HasPrefix(trim, "guard ") || strings.HasPrefix(trim, "assume-field ") || strings.HasPrefix(trim, "overlay ") || strings.HasPrefix(trim, "extern ") || strings.HasPrefix(trim, "interface ") || strings.HasPrefix(trim, "lemma ") || strings.HasPrefix(trim, "uninterp ")
 		if isTop {
 			flush()
 		}
@@ -202,6 +216,18 @@ func parseContractFile(path, pkgPath string, cs *ContractSet) {
 				continue
 			}
 			cs.Pures[pkgPath+"."+fd.Name.Name] = &PureFunc{Decl: fd, Body: ret.Results[0], PkgPath: pkgPath, Text: src, Line: head.line, File: base}
+		case strings.HasPrefix(head.text, "ghost var "):
+			f := strings.Fields(strings.TrimPrefix(head.text, "ghost var "))
+			if len(f) < 2 {
+				cs.Errors = append(cs.Errors, fmt.Sprintf("%s:%d: ghost var name type", base, head.line))
+				continue
+			}
+			te, err := parser.ParseExpr(strings.Join(f[1:], " "))
+			if err != nil {
+				cs.Errors = append(cs.Errors, fmt.Sprintf("%s:%d: ghost var type: %v", base, head.line, err))
+				continue
+			}
+			cs.GhostVars = append(cs.GhostVars, &GhostDecl{Field: f[0], TypeExpr: te, PkgPath: pkgPath})
 		case strings.HasPrefix(head.text, "ghost field "):
 			f := strings.Fields(strings.TrimPrefix(head.text, "ghost field "))
 			if len(f) < 3 {
@@ -214,6 +240,45 @@ func parseContractFile(path, pkgPath string, cs *ContractSet) {
 				continue
 			}
 			cs.Ghosts = append(cs.Ghosts, &GhostDecl{TypeName: f[0], Field: f[1], TypeExpr: te, PkgPath: pkgPath})
+		case strings.HasPrefix(head.text, "guard "), strings.HasPrefix(head.text, "assume-field "):
+			isAssume := strings.HasPrefix(head.text, "assume-field ")
+			var sb strings.Builder
+			for _, r := range blk {
+				sb.WriteString(r.text)
+				sb.WriteByte(' ')
+			}
+			txt := strings.TrimSpace(strings.TrimPrefix(strings.TrimPrefix(sb.String(), "guard "), "assume-field "))
+			var props []string
+			if m := propPrefix.FindStringSubmatch(txt); m != nil {
+				props = strings.Fields(m[1])
+				txt = txt[len(m[0]):]
+			}
+			ci := strings.Index(txt, ":")
+			f := strings.Fields(txt[:max(ci, 0)])
+			if ci < 0 || len(f) != 2 {
+				cs.Errors = append(cs.Errors, fmt.Sprintf("%s:%d: guard [Cxx] Type field: cond", base, head.line))
+				continue
+			}
+			ctext := strings.TrimSpace(txt[ci+1:])
+			ex, err := parser.ParseExpr(ctext)
+			if err != nil {
+				cs.Errors = append(cs.Errors, fmt.Sprintf("%s:%d: guard: %v", base, head.line, err))
+				continue
+			}
+			gd := &Guard{TypeName: f[0], Field: f[1], PkgPath: pkgPath, Props: props,
+				Cond: &Clause{Kind: "guard", Text: ctext, Expr: ex, Line: head.line, File: base}}
+			if isAssume {
+				cs.FieldAssumes = append(cs.FieldAssumes, gd)
+			} else {
+				cs.Guards = append(cs.Guards, gd)
+			}
+		case strings.HasPrefix(head.text, "overlay "):
+			f := strings.Fields(strings.TrimPrefix(head.text, "overlay "))
+			if len(f) == 2 {
+				cs.Overlays = append(cs.Overlays, [3]string{pkgPath, f[0], f[1]})
+			} else {
+				cs.Errors = append(cs.Errors, fmt.Sprintf("%s:%d: overlay <arrayType> <structType>", base, head.line))
+			}
 		case strings.HasPrefix(head.text, "frame-exempt "):
 			for _, tn := range strings.Fields(strings.TrimPrefix(head.text, "frame-exempt ")) {
 				cs.Exempt = append(cs.Exempt, &GhostDecl{TypeName: tn, PkgPath: pkgPath})
@@ -461,6 +526,9 @@ func (c *Contract) addClause(text string, line int, file string) error {
 		}
 	case "nosafety":
 		c.NoSafety = true
+	case "unguarded":
+		c.Unguarded = true
+		c.Notes = append(c.Notes, "unguarded: "+rest)
 	case "replay":
 		c.Replay = rest
 	case "bounded":
